@@ -42,7 +42,7 @@ def gen_specs(rng, parallel=False):
                              warmup=rng.choice([0, 0, 1]), ign=rng.random() < 0.3,
                              exe_build=rng.choice([None, shared_build, "make exe"]),
                              suite_build=rng.choice([None, None, shared_build, "make suite%d" % (i % 2)]),
-                             suite="S%d_%s" % (rng.randint(0, 2), exe), suite_loc=rng.choice(["/x", "/y"]),
+                             suite="S%d_%s" % (rng.randint(0, 2), exe), suite_loc=rng.choice(["/x", "/y", "/l/%(benchmark)s"]),
                              adapter_ok=True, script=script, exclusive=(False if parallel else None)))
     # a suite's settings are shared by its benchmarks: builds / location / adapter come from the first spec of the suite
     first = {}
@@ -128,6 +128,13 @@ def sequential_part(chk, exprs):
                 exprs.append((c2, "scheduler", ev, mh.impl_states(obs, order), obs.result,
                               "let w := %s in let g0 := %s in sx_session w (%s)" % (wterm, g0, t)))
                 # ---- oracle: per run, same as batch
+                # the working directory of every start is the run's own expansion of the suite's location
+                for s_ in specs:
+                    want_cwd = {s_.suite_loc.replace("%(benchmark)s", s_.name)}
+                    if obs.cwds.get(s_.name, want_cwd) != want_cwd:
+                        chk.violation("C11 every process of a run is started in the run's own working directory, whatever the order", c2,
+                                      sorted(want_cwd), sorted(map(str, obs.cwds[s_.name])))
+                        break
                 summary = dict(per_run={nme: mh.per_run(mh.canon_events(obs, ids, order, keep_builds=False), idx[nme]) for nme in order},
                                states={nme: st for nme, st in zip(order, mh.impl_states(obs, order))},
                                rows=rows_multiset(f), builds=sorted(e[1] for e in ev if e[0] == "build"), result=obs.result)
